@@ -27,7 +27,7 @@ type c09Client struct {
 	StartMs int      `json:"start_offset_ms"`
 	Ops     []string `json:"ops"` // data | host | ka | unk | close | ooo | fin | rst  (close/ooo/fin/rst end the script)
 	StallS   int     `json:"stops_reading_for_s,omitempty"` // websocket: after set-up the client does not read for that long while its host keeps sending
-	ReuseID  bool    `json:"reuses_connection_id,omitempty"` // websocket: the client presents the Rdg-Connection-Id another of its tunnels (same user, same case) is using
+	ReuseID  bool    `json:"reuses_connection_id,omitempty"` // websocket (and at most one legacy tunnel per case): the client presents the Rdg-Connection-Id another of its tunnels (same user, same case) is using
 	SimulIn  int     `json:"simultaneous_in,omitempty"` // legacy: that many RDG_IN_DATA requests with the same connection id are sent at the same moment (a client or proxy that retries at once); one of them becomes the tunnel's
 	SecondIn bool    `json:"second_in_early,omitempty"` // legacy: RDG_IN_DATA is retried with the same connection id before the first one sent its preamble
 }
@@ -45,6 +45,7 @@ func genC09(t *rapid.T) c09Case {
 	}
 	c := c09Case{Opts: o, GoMaxProcs: rapid.SampledFrom([]int{2, 4, 16}).Draw(t, "gomaxprocs")}
 	k := rapid.IntRange(2, 12).Draw(t, "clients")
+	legacyShares := false
 	for i := 0; i < k; i++ {
 		cl := c09Client{Kind: genKind(t), StartMs: rapid.IntRange(0, 4).Draw(t, "start")}
 		cl.SecondIn = cl.Kind == "legacy" && rapid.IntRange(0, 4).Draw(t, "secondIn") == 0
@@ -52,6 +53,10 @@ func genC09(t *rapid.T) c09Case {
 			cl.SimulIn = rapid.IntRange(2, 8).Draw(t, "simulInN")
 		}
 		cl.ReuseID = cl.Kind == "ws" && rapid.IntRange(0, 3).Draw(t, "reuseID") == 0
+		if cl.Kind == "legacy" && !cl.SecondIn && cl.SimulIn == 0 && !legacyShares && rapid.IntRange(0, 2).Draw(t, "legacyReuseID") == 0 {
+			// one legacy tunnel of the case uses the identifier too: websocket requests that present it meet a live cached tunnel
+			cl.ReuseID, legacyShares = true, true
+		}
 		n := rapid.IntRange(0, 6).Draw(t, "nops")
 		for j := 0; j < n; j++ {
 			cl.Ops = append(cl.Ops, rapid.SampledFrom([]string{"data", "data", "host", "host", "ka", "unk", "ping-while-host-sends"}).Draw(t, "op"))
